@@ -177,6 +177,12 @@ def corpus():
         # registered while tC, served by another thread on the same application, changes ITS environ
         _arr([_call('tA', [['listen_around', [['yield_to', 1], ['see']]]]), _call('tC', [['req_set', 'HTTP_X_T', 'tCxt'], ['req_del']])],
              0, []),
+        # a handler changes the hook lists (public API) while another request is suspended inside emit(), in a hook:
+        # that request still runs every hook that was registered when its emit() began, once
+        _arr([_call('tA', [['hook_change', 'remove_first'], ['yield_to', 1], ['hook_change', 'readd_first'], ['see']]),
+              _call('tC', [['see']], hook_yield=0)], 1, []),
+        _arr([_call('tA', [['hook_change', 'add_after'], ['yield_to', 1], ['hook_change', 'remove_after'], ['see']]),
+              _call('tC', [['see'], ['hdr', 'X-A', 'tCh']], after_yield=0)], 1, []),
         # answers without a body whose iterable has to be closed
         _arr([_call('tA', [['see'], ['gen', 2]], method='HEAD'), _call('tC', [['status', 204], ['ret', 'file']]),
               _call('tE', [['status', 304], ['gen', 1]])], 0, [[500, 1], [500, 2]]),
@@ -342,6 +348,9 @@ def _gen_arr(rng):
         elif kw.get('form') and not kw.get('chunked_ok') and rng.random() < 0.3:
             kw['hook_input'] = True            # a before_request hook replaces wsgi.input / CONTENT_LENGTH of this request
         script = _gen_script(rng, tok, 'form' in kw)
+        if rng.random() < 0.06:
+            # one more after_request hook for the time of this handler (other requests are inside emit() meanwhile)
+            script = [['hook_change', 'add_after']] + script[:-1] + [['hook_change', 'remove_after'], script[-1]]
         if kw.get('route') in ('static', 'rex', 'int') and rng.random() < 0.5:
             script.insert(rng.randrange(len(script)), ['args_write'])
             script.insert(rng.randrange(len(script)), ['see'])
